@@ -1085,7 +1085,9 @@ def ideal_bin_count(data: np.ndarray, method: str = "default") -> int:
         if value_count < 3:
             return 1
 
-        sigma = np.sqrt(6 * (value_count - 2) / (value_count + 1) * (value_count + 3))
+        sigma = np.sqrt(
+            6 * (value_count - 2) / ((value_count + 1) * (value_count + 3))
+        )
         return int(
             np.ceil(1 + np.log2(value_count) + np.log2(1 + np.abs(_skew(data)) / sigma))
         )
